@@ -269,6 +269,75 @@ func crashRec(r *core.Report, cs *crashScope, extra func(site ssa.CallInstructio
 				e.detail = "no guard at this call, but every call cycle through it passes a call that is guarded (visited set, resolved-or-in-progress test, or progress on the instance)"
 			}
 		}
+		// the "progress on the instance" argument assumes the instance only shrinks on the way down.
+		// A function of a recursive cycle that writes schema-derived data INTO the instance (a default
+		// for an absent property) can re-create, level after level, exactly what the next level
+		// descends into.
+		for _, f := range cs.funcs {
+			if cs.id != "C10" {
+				// defaults are written only under a DefaultsSet callback, which only request/response
+				// validation installs; document validation (C20's scope) passes none (C13.alias)
+				break
+			}
+			inCycle := size[comp[f]] > 1
+			if n := cg.Nodes[f]; n != nil && !inCycle {
+				for _, e := range n.Out {
+					if e.Callee.Func == f {
+						inCycle = true
+					}
+				}
+			}
+			if !inCycle {
+				continue
+			}
+			takesSchema := false
+			for _, prm := range f.Params {
+				if isSchemaPtr(prm.Type()) {
+					takesSchema = true
+				}
+			}
+			if !takesSchema {
+				continue
+			}
+			k := 0
+			for _, prm := range f.Params {
+				if _, isMap := prm.Type().Underlying().(*types.Map); !isMap || !carriesData(prm.Type()) {
+					continue
+				}
+				// the parameter is the instance the recursion consumes: some call inside the cycle is
+				// given a proper part of it (an accumulator that is only passed on whole is not)
+				descends := false
+				if n := cg.Nodes[f]; n != nil {
+					for _, e := range n.Out {
+						if e.Site == nil || comp[e.Callee.Func] != comp[f] {
+							continue
+						}
+						for _, a := range e.Site.Common().Args {
+							if a != ssa.Value(prm) && derivesFromValue(a, prm, 0, map[ssa.Value]bool{}) {
+								descends = true
+							}
+						}
+					}
+				}
+				if !descends {
+					continue
+				}
+				for _, b := range f.Blocks {
+					for _, in := range b.Instrs {
+						mu, ok := in.(*ssa.MapUpdate)
+						if !ok || mu.Map != ssa.Value(prm) {
+							continue
+						}
+						if derivesFromValue(mu.Value, prm, 0, map[ssa.Value]bool{}) {
+							continue
+						}
+						k++
+						key := fmt.Sprintf("rec:grow:%s#%d", shortFn(f), k)
+						edges = append(edges, edge{key, p.Pos(mu.Pos()), fmt.Sprintf("%s, part of a recursive cycle over the schema graph, stores a value that does not come from the instance into the instance it is validating (parameter %s): when the stored value (a default) makes the next level store it again — a recursive schema whose default leaves the recursive property out, e.g. Node{default: {}, properties: {child: $ref Node}} — the descent never ends and the goroutine's stack overflows", shortFn(f), prm.Name()), false, f, f})
+					}
+				}
+			}
+		}
 		sort.Slice(edges, func(i, j int) bool { return edges[i].key < edges[j].key })
 		for _, e := range edges {
 			if os.Getenv("KINLINT_DEBUG") != "" {
@@ -774,6 +843,49 @@ func carriesData(t types.Type) bool {
 			return true
 		}
 		return carriesData(u.Elem())
+	}
+	return false
+}
+
+// derivesFromValue: v is computed from root (loads, lookups, elements, conversions, phis).
+func derivesFromValue(v ssa.Value, root ssa.Value, depth int, seen map[ssa.Value]bool) bool {
+	if v == root {
+		return true
+	}
+	if depth > 10 || seen[v] {
+		return false
+	}
+	seen[v] = true
+	switch x := v.(type) {
+	case *ssa.Lookup:
+		return derivesFromValue(x.X, root, depth+1, seen)
+	case *ssa.Extract:
+		return derivesFromValue(x.Tuple, root, depth+1, seen)
+	case *ssa.UnOp:
+		return derivesFromValue(x.X, root, depth+1, seen)
+	case *ssa.IndexAddr:
+		return derivesFromValue(x.X, root, depth+1, seen)
+	case *ssa.Index:
+		return derivesFromValue(x.X, root, depth+1, seen)
+	case *ssa.TypeAssert:
+		return derivesFromValue(x.X, root, depth+1, seen)
+	case *ssa.MakeInterface:
+		return derivesFromValue(x.X, root, depth+1, seen)
+	case *ssa.ChangeType:
+		return derivesFromValue(x.X, root, depth+1, seen)
+	case *ssa.Convert:
+		return derivesFromValue(x.X, root, depth+1, seen)
+	case *ssa.Phi:
+		for _, e := range x.Edges {
+			if !derivesFromValue(e, root, depth+1, seen) {
+				return false
+			}
+		}
+		return len(x.Edges) > 0
+	case *ssa.Next:
+		return derivesFromValue(x.Iter, root, depth+1, seen)
+	case *ssa.Range:
+		return derivesFromValue(x.X, root, depth+1, seen)
 	}
 	return false
 }
